@@ -24,7 +24,9 @@ Flat(P, lh) == IF lh = <<>> THEN <<>>
                     IN <<Row(m, <<Len(lh)>>, 0)>> \o [k \in DOMAIN merged |-> Row(merged[k], <<0, 1, merged[k]>>, 1)]
                        \o Flat(P, SubSeq(lh, 1, Len(lh) - 1))
 Closures(P) == {TouchClosure(P, T) : T \in {U \in SUBSET DOMAIN P : SingleOrigin(P, U)}}
-Files(P) == SetToSeq({VerOf(P, T) : T \in Closures(P)} \ {[k \in DOMAIN P |-> Null]})
+\* long graphs: three touch sets instead of all 2^n
+LongTouch(P) == {T \in {{1}, {r \in DOMAIN P : r % 3 = 0}, {Len(P) \div 2}} : SingleOrigin(P, T)}
+Files(P) == SetToSeq({VerOf(P, T) : T \in IF IsLong(P) THEN LongTouch(P) ELSE Closures(P)} \ {[k \in DOMAIN P |-> Null]})
 LawsHoldOnSpec == IsCase =>
     LET P == c.par
         lh == LeftHand(P, c.t)
@@ -41,7 +43,7 @@ LawsHoldOnSpec == IsCase =>
              /\ pos(fwd, x) > pos(fwd, lh[k])
              /\ (k < Len(lh) => pos(fwd, x) < pos(fwd, lh[k + 1]))
        /\ RangeRevs(P, c.t, 1, Len(lh)) = Anc0(P, c.t)
-       /\ \A T \in SUBSET DOMAIN P :
+       /\ \A T \in IF IsLong(P) THEN LongTouch(P) ELSE SUBSET DOMAIN P :
              LET C == TouchClosure(P, T)
                  v == VerOf(P, C)
              IN /\ TouchClosure(P, C) = C /\ v = VerOf(P, T)
@@ -52,12 +54,15 @@ WNestedMerge(x) == \E r \in Anc0(x.par, x.t) \ LeftSet(x.par, x.t) : IsMerge(x.p
 WCarriedOver(x) == \E T \in SUBSET DOMAIN x.par : \E m \in LeftSet(x.par, x.t) \ TouchClosure(x.par, T) :
                           IsMerge(x.par, m) /\ VerOf(x.par, T)[m] # Null /\ VerOf(x.par, T)[m] # VerOf(x.par, T)[x.par[m][1]]
 Dirs == {"reverse", "forward"}
+\* range ends: all mainline numbers, or for a long mainline both ends, the quarter and the middle
+RangeEnds(n) == IF n <= 8 THEN 1..n ELSE {1, 2, n \div 4, n \div 2, n - 1, n}
 ReqsOf(P, t) ==
     LET n == RevnoOf(P, t)
+        E == RangeEnds(n)
     IN {Req(dr, lv, 0, 0, 0, 0, TRUE) : dr \in Dirs, lv \in {0, 1, 2}}
        \cup {Req(dr, lv, lim, 0, 0, 0, TRUE) : dr \in Dirs, lv \in {0, 1}, lim \in {1, 2}}
-       \cup {Req(dr, lv, 0, a, b, 0, TRUE) : dr \in Dirs, lv \in {0, 1, 2}, a \in 1..n, b \in 1..n}
-       \cup {Req(dr, 0, 2, a, b, 0, TRUE) : dr \in Dirs, a \in 1..n, b \in 1..n}
+       \cup {Req(dr, lv, 0, a, b, 0, TRUE) : dr \in Dirs, lv \in {0, 1, 2}, a \in E, b \in E}
+       \cup {Req(dr, 0, 2, a, b, 0, TRUE) : dr \in Dirs, a \in E, b \in E}
 \* file requests (a file index, both matching algorithms, both directions, levels 0 and 1) are added by the harness
 \* for the files it samples from `files`
 ReqTuple(q) == <<q.dir, q.levels, q.limit, q.a, q.b, q.file, B2N(q.deltas)>>
@@ -66,9 +71,9 @@ CaseRow(x) == LET fs == Files(x.par)
                   reqs |-> SetToSeq({ReqTuple(q) : q \in {r \in ReqsOf(x.par, x.t) : r.a <= r.b}})]
 \* anti-vacuity: each of these must be reached by some case (checked in the export run: VF_WITNESSES)
 WitnessesReached ==
-    /\ \E x \in Cases : WNestedMerge(x)
-    /\ \E x \in Cases : WCarriedOver(x)
-Export == JsonSerialize(IOEnv.VF_OUT, SetToSeq({CaseRow(x) : x \in Sample(Cases)}))
+    /\ \E x \in SmallOnly(Cases) : WNestedMerge(x)
+    /\ \E x \in SmallOnly(Cases) : WCarriedOver(x)
+Export == JsonSerialize(IOEnv.VF_OUT, SetToSeq({CaseRow(x) : x \in Picked(Cases)}))
 ASSUME IF "VF_OUT" \in DOMAIN IOEnv THEN Export ELSE TRUE
 ASSUME IF "VF_WITNESSES" \in DOMAIN IOEnv THEN WitnessesReached ELSE TRUE
 =============================================================================
